@@ -104,8 +104,48 @@ def _mulmono(m1, m2):
     return tuple(sorted(d.items()))
 
 
+def _mono_gcd(P):
+    g = None
+    for m in P.t:
+        d = dict(m)
+        if g is None:
+            g = d
+        else:
+            g = {k: min(e, d[k]) for k, e in g.items() if k in d}
+        if not g:
+            return {}
+    return g or {}
+
+
+def _cancel(P, Q):
+    """cancel the common monomial factor of numerator and denominator (all divisors are proved/assumed non-zero)"""
+    if P.is_zero() or Q.is_const() or len(Q.t) > 2000 or len(P.t) > 20000:
+        return P, Q
+    gq = _mono_gcd(Q)
+    if not gq:
+        return P, Q
+    gp = _mono_gcd(P)
+    g = {k: min(e, gp[k]) for k, e in gq.items() if k in gp}
+    if not g:
+        return P, Q
+
+    def div(X):
+        out = {}
+        for m, c in X.t.items():
+            d = dict(m)
+            for k, e in g.items():
+                d[k] -= e
+                if d[k] == 0:
+                    del d[k]
+            out[tuple(sorted(d.items()))] = c
+        return Poly(out)
+
+    return div(P), div(Q)
+
+
 class Normalizer:
-    def __init__(self):
+    def __init__(self, defs=None):
+        self.defs = defs  # id of abstract quotient variable -> (var, numerator term, denominator term); expanded when given
         self.atoms = {}  # key -> z3 term
         self.memo = {}
         self.divisors = {}  # poly key -> Poly (numerator polynomial of each divisor met)
@@ -134,6 +174,12 @@ class Normalizer:
             return self.atom(e), one
         k = e.decl().kind()
         ch = e.children()
+        if self.defs is not None and k == z3.Z3_OP_UNINTERPRETED and not ch:
+            d = self.defs.get(e.get_id())
+            if d is not None:
+                P, Q = self.rf(d[1])
+                P2, Q2 = self.rf(d[2])
+                return _cancel(P * Q2, Q * P2)
         if k == z3.Z3_OP_ADD:
             P, Q = self.rf(ch[0])
             for c in ch[1:]:
@@ -153,7 +199,7 @@ class Normalizer:
             P, Q = self.rf(ch[0])
             for c in ch[1:]:
                 P2, Q2 = self.rf(c)
-                P, Q = P * P2, Q * Q2
+                P, Q = _cancel(P * P2, Q * Q2)
             return P, Q
         if k == z3.Z3_OP_DIV:
             P, Q = self.rf(ch[0])
@@ -162,7 +208,7 @@ class Normalizer:
                 return self.atom(e), one
             if not P2.is_const():
                 self.divisors.setdefault(P2.key(), P2)
-            return P * Q2, Q * P2
+            return _cancel(P * Q2, Q * P2)
         if k == z3.Z3_OP_POWER and z3.is_rational_value(ch[1]) and ch[1].denominator_as_long() == 1 and 0 <= ch[1].numerator_as_long() <= 8:
             n = ch[1].numerator_as_long()
             P, Q = self.rf(ch[0])
@@ -230,8 +276,9 @@ def _has_div(e, memo):
 class Rewriter:
     """rewrites boolean z3 terms so that real atoms containing divisions become polynomial atoms"""
 
-    def __init__(self):
-        self.N = Normalizer()
+    def __init__(self, defs=None):
+        self.N = Normalizer(defs)
+        self.expand = defs is not None
         self.memo = {}
         self.divmemo = {}
         self.stats = {"atoms_rewritten": 0, "atoms_decided_by_normal_form": 0, "too_big": 0}
@@ -249,7 +296,7 @@ class Rewriter:
             return e
         k = e.decl().kind()
         ch = e.children()
-        if k in _ARITH_CMP and len(ch) == 2 and z3.is_real(ch[0]) and (_has_div(ch[0], self.divmemo) or _has_div(ch[1], self.divmemo)):
+        if k in _ARITH_CMP and len(ch) == 2 and z3.is_real(ch[0]) and (self.expand or _has_div(ch[0], self.divmemo) or _has_div(ch[1], self.divmemo)):
             # If-terms inside arithmetic stay opaque; that is fine
             try:
                 P1, Q1 = self.N.rf(ch[0])
